@@ -614,6 +614,8 @@ def run(P, rep, tier):
     r057_addr(P, u, E, cat, rep)
     r058(P, u, E, rep)
     r055(P, rep)
+    r053(P, u, E, rep)
+    r056(P, u, E, cat, rep)
 
 
 # ------------------------------------------------------------------------------------------------
@@ -1025,7 +1027,7 @@ def r055(P, rep):
     CU = 'codegen.c'
     if 'emit_data' not in cu.functions:
         raise AnalysisBroken('anchor emit_data vanished from codegen.c')
-    rep.rule('R05.5', 'emit_data walks the byte image consistently: 8 bytes per relocation, consumed exactly when its offset equals the position, 1 byte otherwise, up to the object size; .size/.zero/.comm use the object size and the array-aware alignment', floor=8)
+    rep.rule('R05.5', 'emit_data walks the byte image consistently: 8 bytes per relocation, consumed exactly when its offset equals the position, 1 byte otherwise, up to the object size; .size/.zero/.comm use the object size and the array-aware alignment', floor=7)
     where = '%s:%d' % (CU, cu.fn('emit_data').line)
     E = cu.enums
     # ---- (a) the walk over image + relocations ----------------------------------------------
@@ -1199,3 +1201,325 @@ def _r055_header(it, rep, cu, E, mk2, seen, where):
         if not inited and not comm:
             rep.ob('R05.5', '%s:emit_data:uninitialised-object-zero-filled' % CU, any(_directive(e[1]) == '.zero' for e in emits),
                    'a defined object without initializer gets neither .zero nor .comm', where=where, facts={'path': ctx.trail[-8:]})
+
+
+# ------------------------------------------------------------------------------------------------
+# R05.3 zero fill first
+# ------------------------------------------------------------------------------------------------
+def _init_models(store):
+    def m_initializer(it, ctx, n, a):
+        if len(a) < 4 or not isinstance(a[3], _Ref):
+            raise AnalysisBroken('initializer() is no longer called with (&rest, tok, ty, &new_ty)')
+        final = Obj('Type', lazy=True, label='final-type')
+        a[3].place.set(it, final)
+        tree = Obj('Initializer', lazy=True, label='init-tree')
+        ctx.emit('initializer', a, tree, final, n.line)
+        return tree
+    return {'initializer': m_initializer}
+
+
+def _is_field(it, arg, owner, f):
+    """arg is the value of owner->f (owner may still be a cell with several candidates)"""
+    o = settle(it, owner)
+    if isinstance(o, Obj):
+        return f in o.fields and same(it, arg, o.fields[f])
+    if isinstance(o, View) and isinstance(arg, View):
+        return arg.cell is o.cell and arg.tag == o.tag + '.' + f
+    return False
+
+
+def r053(P, u, E, rep):
+    rep.rule('R05.3', 'automatic objects are zero-filled over their whole final size before the assignment chain runs; static images come from calloc of the final size', floor=7)
+    # ---- lvar_initializer -----------------------------------------------------------------------
+    fn = 'lvar_initializer'
+
+    def h_chain(it, ctx, n, a):
+        r = Obj('Node', lazy=True, label='assignment-chain')
+        ctx.emit('chain', a, r, n.line)
+        return r
+    it = TInterp(P, u, {'models': _init_models(None), 'cut': {'create_lvar_init': h_chain}, 'track_stores': True})
+
+    def mk(ctx):
+        ctx.var = Obj('Obj', lazy=True, label='var')
+        ctx.slot = _Slot()
+        return [_Ref(ctx.slot), Obj('Token', lazy=True, label='tok'), ctx.var]
+    n = 0
+    for ctx, out in it.explore(fn, mk):
+        if out[0] != 'ret':
+            continue
+        n += 1
+        r = settle(it, out[1])
+        ini = [e for e in ctx.events if e[0] == 'initializer']
+        ch = [e for e in ctx.events if e[0] == 'chain']
+        where = _w(u, fn)
+        ok = isinstance(r, Obj) and field(r, 'kind') == E['ND_COMMA']
+        lhs = field(r, 'lhs') if ok else None
+        rhs = field(r, 'rhs') if ok else None
+        z = isinstance(lhs, Obj) and field(lhs, 'kind') == E['ND_MEMZERO'] and field(lhs, 'var') is ctx.var
+        rep.ob('R05.3', '%s:%s:memzero-is-left-operand-of-comma' % (U, fn), bool(ok and z),
+               'the initializer expression of an automatic object is not `(zero-fill var, assignments)`: the zero fill of the whole object must be evaluated BEFORE the assignments '
+               '(as the left operand of the comma), otherwise unmentioned members keep stack garbage or assigned members are wiped', where=where)
+        c = len(ch) == 1 and rhs is ch[0][2]
+        rep.ob('R05.3', '%s:%s:assignment-chain-is-right-operand' % (U, fn), bool(ok and c), 'the assignment chain built by create_lvar_init is not the right operand of the comma', where=where)
+        good = len(ini) == 1 and len(ch) == 1 and settle(it, ch[0][1][0]) is ini[0][2] and settle(it, ch[0][1][1]) is ini[0][3]
+        rep.ob('R05.3', '%s:%s:chain-uses-final-type' % (U, fn), bool(good),
+               'create_lvar_init is not run on (the parsed initializer, the FINAL type of the variable as updated by initializer()): arrays of unknown bound / flexible members would be initialised with the incomplete type', where=where)
+        if len(ch) == 1:
+            d = settle(it, ch[0][1][2]) if len(ch[0][1]) > 2 else None
+            dg = isinstance(d, Obj) and settle(it, d.fields.get('var', 0)) is ctx.var and is_null(settle(it, d.fields.get('next', 0))) and is_null(settle(it, d.fields.get('member', 0)))
+            rep.ob('R05.3', '%s:%s:root-designator-is-the-variable' % (U, fn), bool(dg), 'the root designator of the assignment chain is not the variable itself', where=where)
+        fin = field(ctx.var, 'ty')
+        rep.ob('R05.3', '%s:%s:variable-gets-final-type' % (U, fn), len(ini) == 1 and fin is ini[0][3],
+               'the variable does not receive the completed type computed by initializer(): the zero fill and the frame slot would use the incomplete size', where=where)
+    if n == 0:
+        rep.undecided('R05.3', '%s:%s' % (U, fn), 'no returning path')
+    # ---- gvar_initializer -----------------------------------------------------------------------------
+    fn = 'gvar_initializer'
+
+    def m_calloc(it, ctx, n, a):
+        b = Obj(None, lazy=False, label=ctx.fresh('calloc'))
+        ctx.emit('calloc', a, b, n.line)
+        return b
+
+    def h_write(it, ctx, n, a):
+        first = Obj('Relocation', lazy=True, label='first-relocation')
+        if isinstance(a[0], Obj):
+            a[0].fields['next'] = first
+        ctx.emit('write', a, first, n.line)
+        return first
+    models = _init_models(None)
+    models['calloc'] = m_calloc
+    it = TInterp(P, u, {'models': models, 'cut': {'write_gvar_data': h_write}, 'track_stores': True})
+    n = 0
+    for ctx, out in it.explore(fn, mk):
+        if out[0] != 'ret':
+            continue
+        n += 1
+        where = _w(u, fn)
+        ini = [e for e in ctx.events if e[0] == 'initializer']
+        cal = [e for e in ctx.events if e[0] == 'calloc']
+        wr = [e for e in ctx.events if e[0] == 'write']
+        final = ini[0][3] if len(ini) == 1 else None
+        fsz = field(final, 'size') if final is not None else None
+        good = False
+        if len(cal) == 1 and fsz is not None and len(cal[0][1]) == 2:
+            x, y = cal[0][1]
+            good = (x == 1 and y is fsz) or (y == 1 and x is fsz)
+        rep.ob('R05.3', '%s:%s:image-is-calloc-of-final-size' % (U, fn), good,
+               'the byte image of a static object is not calloc(1, size of the FINAL type): unmentioned members would not be zero, or the image of `T x[] = {...}` would be too short', where=where)
+        g2 = len(wr) == 1 and len(cal) == 1 and len(wr[0][1]) >= 5 and settle(it, wr[0][1][1]) is ini[0][2] and settle(it, wr[0][1][2]) is final \
+            and wr[0][1][3] is cal[0][2] and wr[0][1][4] == 0
+        rep.ob('R05.3', '%s:%s:image-filled-from-offset-0' % (U, fn), bool(g2),
+               'write_gvar_data is not run on (the parsed initializer, the final type, the fresh image, offset 0)', where=where)
+        head = wr[0][1][0] if wr else None
+        g3 = len(wr) == 1 and isinstance(head, Obj) and not head.lazy and field(ctx.var, 'rel') is wr[0][2] and field(ctx.var, 'init_data') is (cal[0][2] if cal else None)
+        rep.ob('R05.3', '%s:%s:object-gets-image-and-relocations' % (U, fn), bool(g3),
+               'the variable does not receive the image (init_data) and the relocation list that starts behind the dummy head (head.next)', where=where)
+    if n == 0:
+        rep.undecided('R05.3', '%s:%s' % (U, fn), 'no returning path')
+    # ---- code generator: ND_MEMZERO fills var->ty->size bytes from var->offset(%rbp); comma evaluates left first ----
+    from ..chibi import CG, Trace, parse_ins
+    cg = CG(P)
+    for kind in ('ND_MEMZERO', 'ND_COMMA'):
+        if kind not in cg.E:
+            raise AnalysisBroken('enumerator %s vanished' % kind)
+
+    def mkz(ctx):
+        nd = cg.node('node', 'ND_MEMZERO')
+        v = Obj('Obj', lazy=True, label='var')
+        nd.fields['var'] = v
+        ctx.root = nd
+        return nd
+    itz, res = cg.explore('gen_expr', mkz)
+    n = 0
+    for ctx, out in res:
+        if out[0] != 'ret':
+            continue
+        n += 1
+        v = ctx.root.fields['var']
+        vt = settle(itz, v.fields.get('ty'))
+        vsize = field(vt, 'size') if isinstance(vt, Obj) else None
+        ems = [e for e in ctx.events if e[0] == 'emit']
+        facts = {'count': None, 'dest': None, 'value': None, 'rep': None}
+        other = []
+        for i, e in enumerate(ems):
+            fmt = e[1] if isinstance(e[1], str) else ''
+            ins = parse_ins(fmt.replace('%%', '%'))
+            if ins is None:
+                continue
+            mn, ops = ins
+            a = e[2]
+            if mn.startswith('mov') and len(ops) == 2 and ops[1] in ('%rcx', '%ecx') and ops[0] == '$%d' and len(a) == 1:
+                facts['count'] = (i, a[0])
+            elif mn.startswith('lea') and len(ops) == 2 and ops[1] == '%rdi' and ops[0] == '%d(%rbp)' and len(a) == 1:
+                facts['dest'] = (i, a[0])
+            elif (mn.startswith('mov') and len(ops) == 2 and ops[0] == '$0' and ops[1] in ('%al', '%eax', '%rax')) or (mn.startswith('xor') and len(ops) == 2 and ops[0] == ops[1] and ops[0] in ('%eax', '%rax', '%al')):
+                facts['value'] = (i, 0)
+            elif mn == 'rep' and ops and ops[0].startswith('stosb'):
+                facts['rep'] = (i, None)
+            elif mn == 'rep':
+                facts['rep'] = (i, ' '.join(ops))
+            else:
+                other.append(fmt.strip())
+        where = '%s:%d' % ('codegen.c', ems[0][3] if ems else cg.cu.fn('gen_expr').line)
+        if other or facts['rep'] is None:
+            rep.undecided('R05.3', 'codegen.c:gen_expr:ND_MEMZERO', 'zero-fill sequence not recognised (%s)' % '; '.join(other or ['no rep stos']), where=where)
+            continue
+        last = facts['rep'][0]
+        okc = facts['count'] is not None and facts['count'][0] < last and _is_field(itz, facts['count'][1], v.fields.get('ty'), 'size') and facts['rep'][1] is None
+        rep.ob('R05.3', 'codegen.c:gen_expr:ND_MEMZERO/byte-count-is-object-size', bool(okc),
+               'the zero fill of an automatic object does not cover exactly var->ty->size bytes (count operand %s, unit %s)' % (show(facts['count'][1]) if facts['count'] else 'missing', facts['rep'][1] or 'byte'), where=where)
+        okd = facts['dest'] is not None and facts['dest'][0] < last and same(itz, facts['dest'][1], v.fields.get('offset')) and 'offset' in v.fields
+        rep.ob('R05.3', 'codegen.c:gen_expr:ND_MEMZERO/starts-at-object', bool(okd), 'the zero fill does not start at var->offset(%rbp)', where=where)
+        okv = facts['value'] is not None and facts['value'][0] < last
+        rep.ob('R05.3', 'codegen.c:gen_expr:ND_MEMZERO/fills-with-zero', bool(okv), 'the fill byte in %al is not set to zero before rep stosb', where=where)
+    if n == 0:
+        rep.undecided('R05.3', 'codegen.c:gen_expr:ND_MEMZERO', 'no returning path')
+
+    def mkc(ctx):
+        nd = cg.node('node', 'ND_COMMA')
+        nd.fields['lhs'] = cg.node('lhs'); nd.fields['rhs'] = cg.node('rhs')
+        ctx.root = nd
+        return nd
+    itc, res = cg.explore('gen_expr', mkc)
+    n = 0
+    for ctx, out in res:
+        if out[0] != 'ret':
+            continue
+        n += 1
+        seq = [settle(itc, e[1]) for e in ctx.events if e[0] == 'gen_expr']
+        good = seq == [ctx.root.fields['lhs'], ctx.root.fields['rhs']]
+        rep.ob('R05.3', 'codegen.c:gen_expr:ND_COMMA/left-then-right', good, 'the comma operator does not evaluate its left operand (the zero fill) and then its right operand (the assignments), each once',
+               where='codegen.c:%d' % cg.cu.fn('gen_expr').line)
+    if n == 0:
+        rep.undecided('R05.3', 'codegen.c:gen_expr:ND_COMMA', 'no returning path')
+
+
+# ------------------------------------------------------------------------------------------------
+# R05.6 string initializer element width
+# ------------------------------------------------------------------------------------------------
+def _exact(ctx, X, n):
+    b = ctx.bounds.get(vkey(X))
+    return bool(b) and ((b[0] == b[1] == n) or (n == 0 and b[1] <= 0))
+
+
+def _le_fact(ctx, X, Y):
+    """does the path know X <= Y from a comparison of the two symbols?"""
+    kx, ky = vkey(X), vkey(Y)
+    for k, v in ctx.facts.items():
+        if not (isinstance(k, tuple) and len(k) == 4 and k[0] == 'term'):
+            continue
+        op, a, b = k[1].split(':')[0], k[2], k[3]
+        if (a, b) == (kx, ky):
+            if (op in ('<', '<=') and v) or (op == '>' and not v):
+                return True
+        if (a, b) == (ky, kx):
+            if (op in ('>', '>=') and v) or (op == '<' and not v):
+                return True
+    return False
+
+
+def _is_min_len(ctx, n, A, B):
+    for X, Y in ((A, B), (B, A)):
+        if _exact(ctx, X, n) and (_le_fact(ctx, X, Y) or _exact(ctx, Y, n)):
+            return True
+        b = ctx.bounds.get(vkey(Y))
+        if _exact(ctx, X, n) and b and b[0] >= n:
+            return True
+    return False
+
+
+def r056(P, u, E, cat, rep):
+    fn = 'string_initializer'
+    rep.rule('R05.6', 'string_initializer reads the literal with the element width of the array for every element size that can reach it, stores min(array length, literal length) elements, or diagnoses', floor=6)
+    it = TInterp(P, u, {'opaque': ['new_initializer', 'array_of'], 'loop_limit': 2, 'lazy_field': children_hook(), 'track_stores': True})
+    sizes = {}
+    for name, f in cat.entries():
+        if name in SCALARS:
+            sizes.setdefault(f['size'], []).append(name)
+
+    def mk(ctx):
+        init = Obj('Initializer', lazy=True, label='init')
+        ty = Obj('Type', lazy=True, label='init.ty')
+        ty.fields['kind'] = E['TY_ARRAY']
+        ty.fields['base'] = type_cell(cat, 'init.ty.base', only=SCALARS)
+        ty.fields['array_len'] = Sym('init.ty.array_len', 'int')
+        init.fields['ty'] = ty
+        init.fields['is_flexible'] = 0
+        tok = Obj('Token', lazy=True, label='tok')
+        tt = Obj('Type', lazy=True, label='tok.ty')
+        tt.fields['array_len'] = Sym('tok.ty.array_len', 'int')
+        tok.fields['ty'] = tt
+        ctx.root_init, ctx.tok = init, tok
+        ctx.slot = _Slot()
+        return [_Ref(ctx.slot), tok, init]
+    done = set()
+    for ctx, out in it.explore(fn, mk):
+        init, tok = ctx.root_init, ctx.tok
+        names = [n for n in cat_of(init.fields['ty'].fields['base']) if n]
+        szs = sorted(set(dict(cat.entries())[n]['size'] for n in names))
+        if out[0] != 'ret':
+            for sz in szs:
+                done.add(sz)
+                key = '%s:%s:element-size=%d' % (U, fn, sz)
+                nm = [n for n in names if dict(cat.entries())[n]['size'] == sz]
+                if out[1] in ('error_tok', 'error_at'):
+                    rep.ob('R05.6', key + '/diagnosed', True, '', where='%s:%d' % (U, out[3]))
+                else:
+                    rep.ob('R05.6', key + '/internal-error', False,
+                           'an array whose element size is %d (%s) initialised by a string literal reaches %s(%s): no width arm and no located diagnostic (`long x[] = "abc";` dies with "internal error")'
+                           % (sz, '/'.join(nm), out[1], show(out[2][0]) if out[2] else ''), where='%s:%d' % (U, out[3]), facts={'path': ctx.trail[-6:]})
+            continue
+        if len(szs) != 1:
+            if out[0] == 'ret' and not [e for e in ctx.events if e[0] == 'fstore' and e[2] == 'expr']:
+                for s in szs:
+                    done.add(s)       # zero-length path: the element size is never consulted
+                continue
+            rep.undecided('R05.6', '%s:%s:element-size-not-decided' % (U, fn), 'a path handles element sizes %s alike' % szs)
+            continue
+        sz = szs[0]
+        done.add(sz)
+        key = '%s:%s:element-size=%d' % (U, fn, sz)
+        sts = [e for e in ctx.events if e[0] == 'fstore' and e[2] == 'expr']
+        ch = field(init, 'children')
+        ok, msg, construct = True, '', 'elements'
+        for i, e in enumerate(sts):
+            k = child_index(ch, e[1])
+            node = settle(it, e[4])
+            val = field(node, 'val') if isinstance(node, Obj) else None
+            val, _ = strip_cast(val)
+            if k != i:
+                ok = False; construct = 'element-order'; msg = 'store #%d of a string initializer goes to element %s' % (i, show_key(k)); break
+            if not isinstance(node, Obj) or field(node, 'kind') != E['ND_NUM']:
+                ok = False; construct = 'element-value'; msg = 'an element initialised from a string literal is not a number node'; break
+            good = isinstance(val, Term) and val.op == 'load' and isinstance(val.args[0], Term) and val.args[0].op == 'elem'
+            if not good:
+                ok = False; construct = 'element-value'; msg = 'element %d is initialised with %s, not with a code unit of the literal' % (i, show(val)); break
+            base, idx, ct = val.args[0].args
+            if base is not tok.fields.get('str'):
+                ok = False; construct = 'element-value'; msg = 'code units are not read from tok->str'; break
+            if idx != i:
+                ok = False; construct = 'element-index'; msg = 'element %d is initialised with code unit %s of the literal' % (i, show(idx)); break
+            if ctype_bits(ct) != 8 * sz:
+                ok = False; construct = 'read-width'
+                msg = 'for element size %d the literal is read as `%s` (%s bits per code unit): characters are taken from the wrong bytes' % (sz, ct, ctype_bits(ct)); break
+        # number of elements: min(array_len, literal length)
+        if ok:
+            A, B = init.fields['ty'].fields['array_len'], tok.fields['ty'].fields['array_len']
+            n = len(sts)
+            if not _is_min_len(ctx, n, A, B):
+                ok = False; construct = 'element-count'
+                msg = ('%d elements are stored on a path that does not establish %d == min(array length, literal length): a longer literal would overflow the '
+                       'Initializer children / a shorter one would read past the literal' % (n, n))
+        rep.ob('R05.6', key + '/' + construct, ok, msg, where=_w(u, fn), facts={'path': ctx.trail[-8:]})
+        if ctx.slot.v is not field(tok, 'next') or 'next' not in tok.fields:
+            rep.ob('R05.6', '%s:%s:consumes-the-literal' % (U, fn), False, 'string_initializer does not advance past the string literal token', where=_w(u, fn))
+        else:
+            rep.ob('R05.6', '%s:%s:consumes-the-literal' % (U, fn), True, '', where=_w(u, fn))
+    missing = [s for s in sizes if s not in done]
+    if missing:
+        rep.undecided('R05.6', '%s:%s' % (U, fn), 'no path for element sizes %s' % missing)
+    # the caller sends every array + string literal here, whatever the element type
+    f2 = u.fn('initializer2')
+    if f2 is None or not f2.calls('string_initializer'):
+        rep.undecided('R05.6', '%s:initializer2:string-dispatch' % U, 'initializer2 no longer calls string_initializer')
